@@ -14,20 +14,37 @@ def overlappingNews (sc : Scenario) (ops : List OpIn) : Bool :=
     | some ea, some eb => (specOf ea).dets.any (fun d => decide (d ∈ (specOf eb).dets))
     | _, _ => false))
 
+/-- With reuseUnlockedTasks: two creations of one round that want a task of the same class on the same host (both may
+    earmark one unlocked roster task: hypothesis `noClaimSteps` of `C04_inv` / `C04_overlapping_deploy_partial` is not
+    guaranteed). -/
+def overlappingClaims (sc : Scenario) (ops : List OpIn) : Bool :=
+  let ks := ops.filterMap (fun | .new k => some k | _ => none)
+  sc.reuse && ks.any (fun a => ks.any (fun b => decide (a < b) &&
+    match sc.envs[a]?, sc.envs[b]? with
+    | some ea, some eb => ea.roles.any (fun ra => ra.kind != .call &&
+        eb.roles.any (fun rb => rb.kind != .call && ra.cls == rb.cls && ra.host == rb.host))
+    | _, _ => false))
+
 def judge (sc : Scenario) (ctxs : List RoundCtx) : Bool × String :=
   -- a detector race stays visible in every later snapshot: remember whether a round allowed it
-  let rec go (cs : List RoundCtx) (raced : Bool) : Bool × String :=
+  -- (and so does the environment a claim race leaves listed for ever)
+  let rec go (cs : List RoundCtx) (raced : Bool) (claimRaced : Bool := false) : Bool × String :=
     match cs with
     | [] => (true, "-")
     | c :: rest =>
       let K := envsOfOps c.ops
       let raced := raced || overlappingNews sc c.ops
-      if specC04Round K c.before c.after then go rest raced
+      let claimRaced := claimRaced || overlappingClaims sc c.ops
+      if specC04Round K c.before c.after then go rest raced claimRaced
       -- a dead core is a plain violation: the model of the code as it is (codeCfg) cannot crash
       -- (C04_no_crash_code; finding reuse_full_claim_crash is fixed)
       else if c.after.crashed then (false, "-")
       else if frameOk K c.before c.after && exclusiveTasks c.after && killsUnowned c.before c.after
               && !exclusiveDets c.after && raced then (false, "create_race")
+      -- the double commit of an earmarked task (finding reuse_claim_race): two environments reference one task, or — after
+      -- both creations were given up — one of them stays listed, referencing a task that was killed under it
+      else if frameOk K c.before c.after && exclusiveDets c.after && claimRaced
+              && (!exclusiveTasks c.after || !killsUnowned c.before c.after) then (false, "reuse_claim_race")
       else (false, "-")
   go ctxs false
 
